@@ -120,6 +120,13 @@ def malformed_variants():
     out.append(("M8-output-node-misspelt", "raises", m, dict(outputs={"o": "px/rate/r"})))
     out.append(("M7b-one-of-two-outputs-misspelt", "raises", m, dict(outputs={"o": "p2/rate/r", "o2": "p1/rate/rr"})))
     out.append(("M8b-one-of-two-output-nodes-misspelt", "raises", m, dict(outputs={"o": "p2/rate/r", "o2": "px/rate/r"})))
+    # three structurally identical nodes (one vectorised group): a value for a variable that does not exist, addressed to a member
+    # of the group other than the first
+    a3 = gen.op_li("rate", x="r", ins=("r_in",), tau=2.0, x0=0.4, in_defaults={"r_in": 0.0})
+    m3n = gen.model([a3], {"p1": dict(ops=["rate"]), "p2": dict(ops=["rate"], over={"rate/tau": 3.0}), "p3": dict(ops=["rate"])},
+                    [gen.edge("p1/rate/r", "p2/rate/r_in", 1.5)])
+    for nd in ("p1", "p2", "p3"):
+        out.append((f"M4f-node-value-missing-variable-group-member-{nd}", "raises", m3n, dict(node_values={f"{nd}/rate/taux": 3.0})))
     out.append(("M4e-node-value-node-misspelt", "warns", m, dict(node_values={"px/rate/tau": 3.0})))
     m9 = json.loads(json.dumps(m))
     m9["ops"]["rate"]["vars"]["tau"] = ["output", 2.0]
@@ -130,6 +137,14 @@ def malformed_variants():
     c1 = gen.op_alg("ca", out="ua", src="ub", fn="tanh")
     c2 = gen.op_alg("cb", out="ub", src="ua", fn="tanh")
     out.append(("M10-cyclic-operator-graph", "raises", gen.model([c1, c2], {"p1": dict(ops=["ca", "cb"])}), dict(outputs={"o": "p1/ca/ua"})))
+    # ... the same cycle next to an operator that has nothing to do with it / next to a two-operator chain (checked on the node
+    # template itself: a cycle that gets past this point makes the compilation loop forever)
+    c3 = gen.op_li("cfree", x="q", ins=("w",), tau=1.0, x0=0.1, in_defaults={"w": 0.2})
+    c4 = gen.op_alg("cd", out="w", src="zz", fn="tanh", src_default=0.3)
+    out.append(("M10b-cyclic-operator-graph-plus-independent-operator", "raises", gen.model([c1, c2, c3], {"p1": dict(ops=["ca", "cb", "cfree"])}),
+                dict(apply_nodes_only=True)))
+    out.append(("M10c-cyclic-operator-graph-plus-chain", "raises", gen.model([c1, c2, c4, c3], {"p1": dict(ops=["ca", "cb", "cd", "cfree"])}),
+                dict(apply_nodes_only=True)))
     out.append(("M11-input-to-missing-variable", "warns", m, dict(inputs={"p1/rate/nope": np.linspace(0, 1, 5)})))
     out.append(("M12-input-to-missing-node", "warns", m, dict(inputs={"px/rate/r_in": np.linspace(0, 1, 5)})))
     out.append(("M13-update-var-missing-variable", "warns", m, dict(update={"p1/rate/nope": 3.0})))
@@ -144,6 +159,10 @@ def malformed_case(c):
         with warnings.catch_warnings(record=True) as w:
             warnings.simplefilter("always")
             tpl = mdl.build_templates(model)
+            if opts.get("apply_nodes_only"):
+                for nt in tpl.nodes.values():
+                    nt.apply()
+                raise_if_reached = True
             if "update" in opts:
                 tpl.update_var(node_vars=opts["update"])
             kw = dict(simulation_time=0.5, step_size=0.1, solver="euler", outputs=opts.get("outputs", {"o": "p2/rate/r"}), vectorize=c["vec"],
@@ -154,7 +173,8 @@ def malformed_case(c):
                 kw["node_values"] = opts["node_values"]
             if "backend" in opts:
                 kw["backend"] = opts["backend"]
-            tpl.run(**kw)
+            if not opts.get("apply_nodes_only"):
+                tpl.run(**kw)
             caught = [str(x.message)[:100] for x in w if "pyrates" in str(x.filename).lower() or "PyRates" in type(x.message).__name__]
     except Exception as exn:
         outcome = f"raises {type(exn).__name__}"
